@@ -148,7 +148,7 @@ def r3_walk(ctx, prog):
     fn = ctx.ast.fn(PL, "default_of_inner", impl_self="DefaultedLocales")
     t = flatp(show(fn.body)) if fn else ""
     want = "{letmutcurrent_key=key;whileletSomekey=self.mapping.getcurrent_key{visited.insertcurrent_key;ifvisited.containskey{return&self.default_locale;};current_key=key;};current_key}"
-    if t != flatp(want):
+    if not same(t, want):
         r.viol("R3:default_of_inner#shape", "chain walk changed: %s" % t[:220], file=PL)
     else:
         r.inst("default_of_inner", "while let Some(next) = mapping.get(cur) { visited.insert(cur); if visited.contains(next) { return default } cur = next } cur")
